@@ -541,6 +541,13 @@ func taskScheduleHandler() {
 			}
 			t := e.Value.(*Task) //nolint:forcetypeassert // Can only be *Task.
 
+			// The timer may have been set for an entry that is gone by now:
+			// only process the first task if it is actually due.
+			if time.Now().Before(t.executeAt) {
+				scheduleLock.Unlock()
+				continue
+			}
+
 			// process Task
 			if t.overtime {
 				// already queued and maxDelay reached
